@@ -274,6 +274,11 @@ def run_shard(spec):
     acc = Acc()
     ctx = Ctx(spec["file"])
     li = spec["loader"]
+    try:
+        ctx.base(li)
+    except Exception:  # noqa: this loader legitimately refuses the unfaulted file (tskit.load of unindexed tables)
+        acc.count("skipped_loader_refuses_unfaulted_file")
+        return acc.result()
     data = ctx.data
     skip = spec.get("_skip", 0)
     kind = spec["kind"]
